@@ -14,6 +14,30 @@ CLAIMED = {
             'the model on the same inputs on every run.',
             'Trusted: Lean kernel; hand-written model tied by differential execution only; fnmatch is a parameter of the '
             'theorems; Python ==/< on builtins as transcribed.', 'DESIGN.md 6/C14'),
+    'C04': ('Lean 4 theorems over interaction-tree programs (induction on the program): the decorated run equals the '
+            'undecorated twin in result and executed bodies, for all programs and fault placements; tied to /repo by '
+            'differential execution of model and real recorder on random histories with a decorated/undecorated twin oracle',
+            'Kernel-checked: for every program (any calls, nested interceptions, discard/force from bodies, key/handler/'
+            'extractor/save faults, interrupts) and every recorder state outside replay, results and executed bodies equal '
+            'the twin\'s; disabled/skipped is pass-through and never touches the cassette. Sequential programs; thread '
+            'interleavings are not covered by a theorem (partial).',
+            'Trusted: Lean kernel; hand-written recorder model tied by differential execution; values opaque; CPython '
+            'thread switching not modelled; known finding K6 (nested operation) excluded by hypothesis.', 'DESIGN.md 6/C04'),
+    'C05': ('Lean 4 invariant proof (recording scope invariant preserved by every interpreter step, lifted to all programs) '
+            'giving exactly-once finalisation; correspondence check with a spy cassette log and replay of every saved recording',
+            'Kernel-checked: every operation adds exactly create i then exactly one of save i / abort i to the cassette log, '
+            'for all programs, faults, discards, sampling outcomes, exceptions and interrupts; a discarded recording is never '
+            'saved whatever the rest of the operation does.',
+            'Trusted: Lean kernel; hand-written recorder model tied by differential execution; sequential programs.',
+            'DESIGN.md 6/C05'),
+    'C09': ('Lean 4 theorems: idle after every kind of run (induction on programs via the scope invariant), idle after any '
+            'history (induction on the history), an idle state equals a fresh state up to the named persistent components; '
+            'correspondence check compares each probe run with the same run on a fresh recorder',
+            'Kernel-checked: after any operation, replay or history of runs the recorder is idle, and the result of any probe '
+            'run equals what a fresh recorder with the same persistent components (enabled flag, PRNG/clock position, cassette) '
+            'produces.',
+            'Trusted: Lean kernel; hand-written recorder model tied by differential execution; thread-local flag modelled for '
+            'one thread.', 'DESIGN.md 6/C09'),
 }
 
 NOT_YET = 'check not built yet in this round (work in progress; see DESIGN.md section 6 for the planned proof and tie)'
